@@ -12,8 +12,29 @@
 //!                                             all of f64: val additionally p (+inf) | q (-inf) | z (NaN) | M (f64::MAX) | L (f64::MIN);
 //!                                             obs := T:min,max,sum/A:min,max/O:min,max  (TimeWindow / Aggregator / operators::{Min,Max});
 //!                                             results print as `-` (None), an integer, p, q, z (any NaN), M, L; `n` = not observed
-//!                                             (sum when a NaN or ±f64::MAX is present: depends on the order of addition; operators::Min/Max
-//!                                             when a NaN is present: they compare with `partial_cmp().unwrap()`)
+//!                                             (operators::Min/Max when a NaN is present: they compare with `partial_cmp().unwrap()`); the sum
+//!                                             is always observed: the model adds in the order of the deque
+//!   KW <T|S|N> <d> <cap> <key,..> <ev,..>     the stream operators of operators.rs on the events (event i has key `key[i]`, read by the key
+//!                                             selector `get_string("k").unwrap_or("0")`: key n>0 = Value::String(n), 0 = no field, 9 = Value::Integer(9)
+//!                                             — not a string, reads as key 0). The aggregator handed to every `aggregate` is a CustomAggregator
+//!                                             that reports the ids it was given and the answers of the real Count/Sum/Average/Min/Max on them
+//!                                             (win := ids~count,sum,avg,min,max); the reducer appends ids (red := id.id.id, `-` = None).
+//!                                             obs := KA!KR!WA!WR!WF!KS!KK!KF!GS!DS   (or `panic`)
+//!                                               KA key_by.window.aggregate  k=win+win;..     KR key_by.window.reduce  k=red+red;..
+//!                                               WA window.aggregate  win+win                  WR window.reduce  red+red      WF window.flatten ids
+//!                                               KS key_by: k=count:aggregate:reduce;..        KK key_by.keys()               KF key_by.flatten ids
+//!                                               GS group_by: k=count:aggregate:first:last;..  DS stream: count:len:aggregate:reduce
+//!                                             entries by ascending key; tumbling windows (HashMap order) sorted as strings, flatten ids sorted
+//!   ST <k,..> <ev,..>                         StdDev (f64 bits or `-`) and the percentiles k/10 (any integer k: negative, above 1000) of one window
+//!   MS <S|T|N> <d> <cap> <maxw> <k> <ev,..>   WindowManager after the events: active windows ! total_event_count / latest_window start /
+//!                                             get_statistics (windows,events,oldest,newest,mean bits) / StreamAnalytics::moving_average(.., k) bits /
+//!                                             aggregate_across_windows(|w| w.sum(v)), aggregate_across_windows(|w| w.count() as f64)
+//!   AS <-|S|T> <d> <cap> <now@ev[x][y],..>    StreamAlphaNode after the ops (as AN): ids/event_count/window_stats oldest,newest,duration_ms/event_count after clear
+//!   TS <S|T|N> <d> <start> <cap> <a> <b> <op,..>  TimeWindow after the ops: ids/latest_timestamp/events_in_range(a,b)/duration_ms/count after clear
+//!   SA <t2> <idx,..> <ev,..>                  StreamAnalytics over hand-built windows (event i sits in window idx[i]; windows 0..max idx in order):
+//!                                             detect_anomalies(windows, v, t2 / 2.0) ids / calculate_trend(windows, v) as I | D | S
+//!   EV <val,..>                               get_numeric:get_string:get_boolean of a field holding val := n<int> | i<int> | t<int> | b0 | b1 | u (Null) |
+//!                                             m (missing) | p | q | z | M | L
 //! <d> := <ms> (Duration::from_millis) | u<micros> (Duration::from_micros: durations that are not whole milliseconds)
 //! ev := <ts>:<val>   val := n<int> (Value::Number) | i<int> (Value::Integer) | s (String "7") | t<int> (String of the integer) | m (missing)
 //! event id = position in the case's list.  x = foreign stream name, y = foreign event type.
@@ -28,10 +49,10 @@
 //! f64 results are exact), avg as the f64 bit pattern; a non-integral value prints as f<bits>.
 use rre_harness::*;
 use rust_rule_engine::rete::stream_alpha_node::{verif_clock, StreamAlphaNode, WindowSpec};
-use rust_rule_engine::streaming::aggregator::{AggregationResult, AggregationType, Aggregator};
+use rust_rule_engine::streaming::aggregator::{AggregationResult, AggregationType, Aggregator, StreamAnalytics, TrendDirection};
 use rust_rule_engine::streaming::event::StreamEvent;
 use rust_rule_engine::streaming::operators::{
-    AggregateResult, Aggregation, Average, Count, Max, Min, Sum, WindowConfig, WindowedStream,
+    AggregateResult, Aggregation, Average, Count, CustomAggregator, DataStream, Max, Min, Sum, WindowConfig, WindowedStream,
 };
 use rust_rule_engine::streaming::window::{TimeWindow, WindowManager, WindowType};
 use rust_rule_engine::types::Value;
@@ -493,7 +514,7 @@ fn exec_xv(t: &[&str]) -> Option<String> {
     }
     let has = |c: &str| evs.iter().any(|e| c.contains(e.val.as_str()));
     let f = || FIELD.to_string();
-    let sum = if has("zML") { "n".to_string() } else { xnum(w.sum(FIELD)) };
+    let sum = xnum(w.sum(FIELD)); // observed always: the model folds in the order of the deque (`xSumFold`)
     let all: Vec<StreamEvent> = w.events().iter().cloned().collect();
     let o = if has("z") {
         "n,n".to_string()
@@ -511,6 +532,341 @@ fn exec_xv(t: &[&str]) -> Option<String> {
     ))
 }
 
+// ---------------------------------------------------------------- stream operators (KW), StdDev / percentiles (ST), statistics (MS, TS), fields (EV)
+fn win_str(evs: &[StreamEvent]) -> String {
+    format!("{}~{}", ids(evs.iter()), agg_o(evs))
+}
+fn reducer(mut acc: StreamEvent, e: StreamEvent) -> StreamEvent {
+    acc.id = format!("{}.{}", acc.id, e.id);
+    acc
+}
+fn key_sel(e: &StreamEvent) -> String {
+    e.get_string("k").unwrap_or("0").to_string()
+}
+fn custom() -> CustomAggregator<impl Fn(&[StreamEvent]) -> AggregateResult + Send + Sync> {
+    CustomAggregator::new(|evs: &[StreamEvent]| AggregateResult::String(win_str(evs)))
+}
+fn res_str(r: &AggregateResult) -> String {
+    // through the accessors of AggregateResult: a String result is neither a number nor a map
+    match (r.as_string(), r.as_number(), r.as_map()) {
+        (Some(s), None, None) => s.to_string(),
+        _ => "?".into(),
+    }
+}
+fn joined(mut v: Vec<String>, sort: bool, sep: &str) -> String {
+    if sort {
+        v.sort();
+    }
+    if v.is_empty() {
+        "_".into()
+    } else {
+        v.join(sep)
+    }
+}
+fn by_key<V>(m: HashMap<String, V>, f: impl Fn(&V) -> String) -> String {
+    let mut v: Vec<(u64, String)> = m.iter().map(|(k, x)| (k.parse::<u64>().unwrap_or(u64::MAX), f(x))).collect();
+    v.sort();
+    joined(v.into_iter().map(|(k, s)| format!("{}={}", k, s)).collect(), false, ";")
+}
+
+fn exec_kw(t: &[&str]) -> Option<String> {
+    let (d, cap) = (parse_dur(t[2])?, t[3].parse::<usize>().ok()?);
+    let tumbling = t[1] == "T";
+    if !tumbling && d.as_millis() < 2 {
+        return None; // the tiny sliding durations (the former hang) belong to the WS cases, which run under a deadline
+    }
+    let keys: Vec<u64> = parse_nums(t[4])?;
+    let toks = list(t[5]);
+    if keys.len() != toks.len() {
+        return None;
+    }
+    let mut evs = Vec::new();
+    for (i, tok) in toks.iter().enumerate() {
+        let mut ev = mk_event(i, &parse_ev(tok)?);
+        match keys[i] {
+            0 => {}
+            9 => {
+                ev.data.insert("k".to_string(), Value::Integer(9));
+            }
+            k => {
+                ev.data.insert("k".to_string(), Value::String(k.to_string()));
+            }
+        }
+        evs.push(ev);
+    }
+    let cfg = match t[1] {
+        "T" => WindowConfig::tumbling(d),
+        "S" => WindowConfig::sliding(d),
+        "N" => WindowConfig::session(d),
+        _ => return None,
+    }
+    .with_max_events(cap);
+    let stream = || DataStream::from_events(evs.clone());
+    let ka = by_key(stream().key_by(key_sel).window(cfg.clone()).aggregate(custom()), |rs| {
+        joined(rs.iter().map(res_str).collect(), tumbling, "+")
+    });
+    let kr = by_key(stream().key_by(key_sel).window(cfg.clone()).reduce(reducer), |rs| {
+        joined(rs.iter().map(|e| e.id.clone()).collect(), tumbling, "+")
+    });
+    let wa = joined(stream().window(cfg.clone()).aggregate(custom()).iter().map(res_str).collect(), tumbling, "+");
+    let wr = joined(stream().window(cfg.clone()).reduce(reducer).iter().map(|e| e.id.clone()).collect(), tumbling, "+");
+    let mut flat: Vec<u64> =
+        stream().window(cfg.clone()).flatten().collect().iter().map(|e| e.id.parse::<u64>().unwrap_or(u64::MAX)).collect();
+    if tumbling {
+        flat.sort();
+    }
+    let wf = join_nums(&flat);
+    // KeyedStream
+    let counts = stream().key_by(key_sel).count();
+    let aggs = stream().key_by(key_sel).aggregate(custom());
+    let reds = stream().key_by(key_sel).reduce(reducer);
+    let ks = by_key(counts, |c| c.to_string());
+    let ks_a = by_key(aggs, res_str);
+    let ks_r = by_key(reds, |e| e.id.clone());
+    // one entry per key: zip the three maps (same key sets by construction; a difference shows as a diff of the joined text)
+    let ks = {
+        let part = |s: &str| -> Vec<(String, String)> {
+            if s == "_" {
+                vec![]
+            } else {
+                s.split(';').map(|kv| kv.split_once('=').map(|(a, b)| (a.to_string(), b.to_string())).unwrap()).collect()
+            }
+        };
+        let (c, a, r) = (part(&ks), part(&ks_a), part(&ks_r));
+        let ent: Vec<String> = c
+            .iter()
+            .map(|(k, cv)| {
+                let av = a.iter().find(|x| &x.0 == k).map(|x| x.1.clone()).unwrap_or_else(|| "?".into());
+                let rv = r.iter().find(|x| &x.0 == k).map(|x| x.1.clone()).unwrap_or_else(|| "-".into());
+                format!("{}={}:{}:{}", k, cv, av, rv)
+            })
+            .collect();
+        if a.len() != c.len() || r.len() > c.len() {
+            "?".to_string()
+        } else {
+            joined(ent, false, ";")
+        }
+    };
+    let mut kk: Vec<u64> = stream().key_by(key_sel).keys().iter().map(|k| k.parse::<u64>().unwrap_or(u64::MAX)).collect();
+    kk.sort();
+    let mut kf_evs = stream().key_by(key_sel).flatten().collect();
+    kf_evs.sort_by_key(|e| key_sel(e).parse::<u64>().unwrap_or(u64::MAX)); // stable: the order inside a group is the code's
+    let kf = ids(kf_evs.iter());
+    // GroupedStream
+    let gs = {
+        let c = stream().group_by(key_sel).count();
+        let a = stream().group_by(key_sel).aggregate(custom());
+        let f = stream().group_by(key_sel).first();
+        let l = stream().group_by(key_sel).last();
+        let mut keys: Vec<&String> = c.keys().collect();
+        keys.sort_by_key(|k| k.parse::<u64>().unwrap_or(u64::MAX));
+        let ent: Vec<String> = keys
+            .iter()
+            .map(|k| {
+                format!(
+                    "{}={}:{}:{}:{}",
+                    k,
+                    c[*k],
+                    a.get(*k).map(res_str).unwrap_or_else(|| "?".into()),
+                    f.get(*k).map(|e| e.id.clone()).unwrap_or_else(|| "-".into()),
+                    l.get(*k).map(|e| e.id.clone()).unwrap_or_else(|| "-".into())
+                )
+            })
+            .collect();
+        if a.len() != c.len() || f.len() > c.len() || l.len() > c.len() {
+            "?".to_string()
+        } else {
+            joined(ent, false, ";")
+        }
+    };
+    // the plain stream, built with new() + push
+    let mut ds = DataStream::new();
+    if !(ds.is_empty() && ds.len() == 0) {
+        return Some("?".into());
+    }
+    for e in &evs {
+        ds.push(e.clone());
+    }
+    let dss = format!(
+        "{}:{}:{}:{}",
+        ds.clone().count(),
+        ds.len(),
+        res_str(&ds.clone().aggregate(custom())),
+        ds.clone().reduce(reducer).map(|e| e.id).unwrap_or_else(|| "-".into())
+    );
+    Some([ka, kr, wa, wr, wf, ks, join_nums(&kk), kf, gs, dss].join("!"))
+}
+
+fn exec_st(t: &[&str]) -> Option<String> {
+    let ks: Vec<i64> = parse_nums(t[1])?;
+    let mut w = TimeWindow::new(WindowType::Sliding, Duration::from_millis(1_000_000), 0, 100_000);
+    for (i, tok) in list(t[2]).iter().enumerate() {
+        if !w.add_event(mk_event(i, &parse_ev(tok)?)) {
+            return None;
+        }
+    }
+    let f = || FIELD.to_string();
+    // through the accessors of AggregationResult: a Number result is neither a string nor a boolean
+    let std = match Aggregator::new(AggregationType::StdDev { field: f() }).aggregate(&w) {
+        r @ AggregationResult::Number(_) => match (r.as_number(), r.as_string(), r.as_boolean()) {
+            (Some(x), None, None) => x.to_bits().to_string(),
+            _ => "?".to_string(),
+        },
+        AggregationResult::None => "-".to_string(),
+        _ => "?".to_string(),
+    };
+    let pcts: Vec<String> = ks
+        .iter()
+        .map(|k| {
+            onum(ar(Aggregator::new(AggregationType::Percentile { field: f(), percentile: *k as f64 / 10.0 }).aggregate(&w)))
+        })
+        .collect();
+    Some(format!("{}/{}", std, join_nums(&pcts)))
+}
+
+fn exec_ms(t: &[&str]) -> Option<String> {
+    let (ty, d, cap, maxw, k) =
+        (wtype(t[1])?, parse_dur(t[2])?, t[3].parse::<usize>().ok()?, t[4].parse::<usize>().ok()?, t[5].parse::<usize>().ok()?);
+    let mut m = WindowManager::new(ty, d, cap, maxw);
+    for (i, tok) in list(t[6]).iter().enumerate() {
+        m.process_event(mk_event(i, &parse_ev(tok)?));
+    }
+    let st = m.get_statistics();
+    let on = |x: Option<u64>| x.map(|v| v.to_string()).unwrap_or_else(|| "-".into());
+    Some(format!(
+        "{}!{}/{}/{},{},{},{},{}/{}/{},{}",
+        windows_obs(&m.active_windows().iter().collect::<Vec<_>>()),
+        m.total_event_count(),
+        on(m.latest_window().map(|w| w.start_time)),
+        st.total_windows,
+        st.total_events,
+        on(st.oldest_window_start),
+        on(st.newest_window_start),
+        st.average_events_per_window.to_bits(),
+        // -0.0 (the sum of no numeric value at all) and +0.0 are one number: printed as +0.0
+        obits(StreamAnalytics::new(1000).moving_average(m.active_windows(), FIELD, k).map(|x| if x == 0.0 { 0.0 } else { x })),
+        num(m.aggregate_across_windows(|w| w.sum(FIELD))),
+        num(m.aggregate_across_windows(|w| w.count() as f64))
+    ))
+}
+
+fn exec_sa(t: &[&str]) -> Option<String> {
+    let t2: i64 = t[1].parse().ok()?;
+    let idx: Vec<usize> = parse_nums(t[2])?;
+    let toks = list(t[3]);
+    if idx.len() != toks.len() {
+        return None;
+    }
+    let nwin = idx.iter().max().map(|m| m + 1).unwrap_or(0);
+    let mut ws: Vec<TimeWindow> =
+        (0..nwin).map(|_| TimeWindow::new(WindowType::Sliding, Duration::from_millis(1_000_000), 0, 100_000)).collect();
+    for (i, tok) in toks.iter().enumerate() {
+        if !ws[idx[i]].add_event(mk_event(i, &parse_ev(tok)?)) {
+            return None;
+        }
+    }
+    let an = StreamAnalytics::new(1000);
+    let anomalies = an.detect_anomalies(&ws, FIELD, t2 as f64 / 2.0);
+    let trend = match an.calculate_trend(&ws, FIELD) {
+        TrendDirection::Increasing => "I",
+        TrendDirection::Decreasing => "D",
+        TrendDirection::Stable => "S",
+    };
+    Some(format!("{}/{}", join_nums(&anomalies), trend))
+}
+
+fn exec_as(t: &[&str]) -> Option<String> {
+    let (d, cap) = (parse_dur(t[2])?, t[3].parse::<usize>().ok()?);
+    let spec = match t[1] {
+        "-" => None,
+        s @ ("S" | "T") => Some(WindowSpec { duration: d, window_type: wtype(s)? }),
+        _ => return None,
+    };
+    let mut node = StreamAlphaNode::new(STREAM, Some(ETYPE.to_string()), spec).with_max_events(cap);
+    for (i, tok) in list(t[4]).iter().enumerate() {
+        let (now, ev) = tok.split_once('@')?;
+        let e = parse_ev(ev)?;
+        verif_clock::set(Some(now.parse().ok()?));
+        node.process_event(&mk_event(i, &e));
+    }
+    verif_clock::set(None);
+    let st = node.window_stats();
+    let on = |x: Option<u64>| x.map(|v| v.to_string()).unwrap_or_else(|| "-".into());
+    let head = format!(
+        "{}/{}/{},{},{},{}",
+        ids(node.get_events().iter()),
+        node.event_count(),
+        st.event_count,
+        on(st.oldest_event_timestamp),
+        on(st.newest_event_timestamp),
+        on(st.window_duration_ms)
+    );
+    node.clear();
+    Some(format!("{}/{}", head, node.event_count()))
+}
+
+fn exec_ts(t: &[&str]) -> Option<String> {
+    let (ty, d, start, cap) = (wtype(t[1])?, parse_dur(t[2])?, t[3].parse::<u64>().ok()?, t[4].parse::<usize>().ok()?);
+    let (a, b) = (t[5].parse::<u64>().ok()?, t[6].parse::<u64>().ok()?);
+    let mut w = TimeWindow::new(ty, d, start, cap);
+    for (i, op) in list(t[7]).iter().enumerate() {
+        let ev = mk_event(i, &parse_ev(&op[1..])?);
+        match op.as_bytes()[0] {
+            b'a' => {
+                w.add_event(ev);
+            }
+            b'r' => w.record(ev),
+            _ => return None,
+        }
+    }
+    let head = format!(
+        "{}/{}/{}/{}",
+        ids(w.events().iter()),
+        w.latest_timestamp().map(|v| v.to_string()).unwrap_or_else(|| "-".into()),
+        ids(w.events_in_range(a, b).into_iter()),
+        w.duration_ms()
+    );
+    w.clear();
+    Some(format!("{}/{}", head, w.count()))
+}
+
+fn exec_ev(t: &[&str]) -> Option<String> {
+    let mut out = Vec::new();
+    for tok in list(t[1]) {
+        let mut data = HashMap::new();
+        let v = match tok.as_bytes()[0] {
+            b'n' => Some(Value::Number(tok[1..].parse::<i64>().ok()? as f64)),
+            b'i' => Some(Value::Integer(tok[1..].parse::<i64>().ok()?)),
+            b't' => Some(Value::String(tok[1..].parse::<i64>().ok()?.to_string())),
+            b'b' => Some(Value::Boolean(&tok[1..] == "1")),
+            b'u' => Some(Value::Null),
+            b'p' => Some(Value::Number(f64::INFINITY)),
+            b'q' => Some(Value::Number(f64::NEG_INFINITY)),
+            b'z' => Some(Value::Number(f64::NAN)),
+            b'M' => Some(Value::Number(f64::MAX)),
+            b'L' => Some(Value::Number(f64::MIN)),
+            b'm' => None,
+            _ => return None,
+        };
+        match v {
+            Some(v) => {
+                data.insert(FIELD.to_string(), v);
+            }
+            None => {
+                data.insert("other".to_string(), Value::Integer(1));
+            }
+        }
+        let e = StreamEvent::with_timestamp(ETYPE, data, STREAM, 1);
+        out.push(format!(
+            "{}:{}:{}",
+            oxnum(e.get_numeric(FIELD)),
+            e.get_string(FIELD).unwrap_or("-"),
+            e.get_boolean(FIELD).map(|b| (b as u8).to_string()).unwrap_or_else(|| "-".into())
+        ));
+    }
+    Some(join_nums(&out))
+}
+
 fn exec_inner(case: &str) -> Option<String> {
     let t: Vec<&str> = case.split_whitespace().collect();
     match (t.first().copied(), t.len()) {
@@ -520,6 +876,13 @@ fn exec_inner(case: &str) -> Option<String> {
         (Some("AN"), 5) => exec_an(&t),
         (Some("AG"), 2) => exec_ag(&t),
         (Some("XV"), 3) => exec_xv(&t),
+        (Some("KW"), 6) => exec_kw(&t),
+        (Some("ST"), 3) => exec_st(&t),
+        (Some("MS"), 7) => exec_ms(&t),
+        (Some("TS"), 8) => exec_ts(&t),
+        (Some("EV"), 2) => exec_ev(&t),
+        (Some("AS"), 5) => exec_as(&t),
+        (Some("SA"), 4) => exec_sa(&t),
         _ => None,
     }
 }
@@ -984,6 +1347,126 @@ fn gen_xv(rng: &mut Rng, k: usize) -> String {
     format!("XV {} {}", if k % 2 == 0 { "r" } else { "a" }, join_nums(&evs))
 }
 
+/// stream operators: few keys (0 = no key field, 9 = a key field that is not a string), all three window configurations
+fn gen_kw(rng: &mut Rng, k: usize) -> String {
+    let ty = match k % 4 {
+        0 | 1 => "T",
+        2 => "S",
+        _ => "N",
+    };
+    let d = if ty == "T" { *rng.pick(&[1u64, 2, 3, 5, 8, 10, 10]) } else { *rng.pick(&[2u64, 3, 4, 5, 7, 8, 10, 13]) };
+    let d = if ty == "T" && rng.chance(1, 60) { 0 } else { d };
+    let ds = if rng.chance(1, 10) { format!("u{}", d * 1000 + *rng.pick(&[1u64, 500, 999])) } else { d.to_string() };
+    let cap = *rng.pick(&[0usize, 1, 2, 3, 100, 100, 100]);
+    let len = rng.below(13) as usize;
+    let nkeys = *rng.pick(&[1u64, 2, 3, 4, 10]);
+    let hi = *rng.pick(&[8u64, 20, 40]);
+    let keys: Vec<u64> = (0..len).map(|_| rng.below(nkeys)).collect();
+    format!("KW {} {} {} {} {}", ty, ds, cap, join_nums(&keys), gen_evs(rng, len, 0, hi))
+}
+
+/// StdDev value and arbitrary percentiles (tenths of a percent; ties of the rank, out-of-range and negative percentiles)
+fn gen_st(rng: &mut Rng) -> String {
+    let len = if rng.chance(1, 8) { rng.range(13, 40) } else { rng.below(13) } as usize;
+    let dom = *rng.pick(&[2u64, 4, 9, 30, 1000]);
+    let evs: Vec<String> = (0..len)
+        .map(|i| {
+            let v = rng.below(dom) as i64 - (dom as i64) / 3;
+            let val = match rng.below(12) {
+                0 => "s".to_string(),
+                1 => "m".to_string(),
+                2 => format!("t{}", v),
+                3..=7 => format!("n{}", v),
+                _ => format!("i{}", v),
+            };
+            format!("{}:{}", i, val)
+        })
+        .collect();
+    let pool: [i64; 24] = [0, 250, 500, 750, 1000, 1, 5, 10, 100, 300, 333, 125, 375, 625, 875, 900, 950, 990, 999, 1001, 1500, 2000, -50, -1];
+    let nk = rng.range(1, 6) as usize;
+    let ks: Vec<i64> = (0..nk).map(|_| if rng.chance(1, 3) { rng.below(1001) as i64 } else { *rng.pick(&pool) }).collect();
+    format!("ST {} {}", join_nums(&ks), join_nums(&evs))
+}
+
+/// manager statistics and the moving average over the last k active windows
+fn gen_ms(rng: &mut Rng) -> String {
+    let base = if rng.chance(1, 2) { gen_wm(rng) } else { gen_wm_fixed(rng) };
+    let t: Vec<&str> = base.split_whitespace().collect();
+    let k = *rng.pick(&[0usize, 1, 1, 2, 3, 100]);
+    format!("MS {} {} {} {} {} {}", t[1], t[2], t[3], t[4], k, t[5])
+}
+
+/// TimeWindow statistics after a run of add_event / record
+fn gen_ts_case(rng: &mut Rng) -> String {
+    let base = gen_tw(rng);
+    let t: Vec<&str> = base.split_whitespace().collect();
+    let a = rng.below(40);
+    let b = if rng.chance(1, 6) { a } else { a + rng.below(25) };
+    format!("TS {} {} {} {} {} {} {}", t[1], t[2], t[3], t[4], a, b, t[5])
+}
+
+/// analytics over 0..6 hand-built windows: enough historical values for a baseline (>= 10) most of the time, equal values
+/// (standard deviation 0), outliers in the last window, windows without numeric value, averages around the +-5 % boundary
+fn gen_sa(rng: &mut Rng) -> String {
+    let nw = rng.below(7) as usize;
+    let len = if nw == 0 { 0 } else if rng.chance(1, 4) { rng.below(10) } else { rng.range(11, 30) } as usize;
+    let dom = *rng.pick(&[1u64, 3, 10, 100]);
+    let base = *rng.pick(&[0i64, 20, 100, -20]);
+    let mut idx: Vec<usize> = (0..len).map(|_| if rng.chance(1, 4) { nw - 1 } else { rng.below(nw as u64) as usize }).collect();
+    if len > 0 {
+        idx[0] = nw - 1; // the last window exists
+    }
+    let evs: Vec<String> = (0..len)
+        .map(|i| {
+            let v = base + rng.below(dom) as i64 + if rng.chance(1, 8) { *rng.pick(&[50i64, -40, 7]) } else { 0 };
+            let val = match rng.below(12) {
+                0 => "s".to_string(),
+                1 => "m".to_string(),
+                2..=6 => format!("n{}", v),
+                _ => format!("i{}", v),
+            };
+            format!("{}:{}", i, val)
+        })
+        .collect();
+    let t2 = *rng.pick(&[0i64, 1, 2, 3, 4, 5, 6, -1]);
+    format!("SA {} {} {}", t2, join_nums(&idx), join_nums(&evs))
+}
+
+fn gen_ev_case(rng: &mut Rng) -> String {
+    let len = rng.range(1, 8) as usize;
+    let toks: Vec<String> = (0..len)
+        .map(|_| match rng.below(12) {
+            0 => "m".to_string(),
+            1 => "u".to_string(),
+            2 => "b0".to_string(),
+            3 => "b1".to_string(),
+            4 => rng.pick(&["p", "q", "z", "M", "L"]).to_string(),
+            5 | 6 => format!("t{}", rng.below(30) as i64 - 9),
+            7 | 8 => format!("i{}", rng.below(30) as i64 - 9),
+            _ => format!("n{}", rng.below(30) as i64 - 9),
+        })
+        .collect();
+    format!("EV {}", join_nums(&toks))
+}
+
+/// sums whose value depends on the order of addition: runs of +-f64::MAX (MAX + MAX overflows, MAX - MAX cancels) between small
+/// integers and the occasional infinity / NaN; the model adds in the order of the deque
+fn gen_xv_order(rng: &mut Rng, k: usize) -> String {
+    let len = rng.range(3, 9) as usize;
+    let evs: Vec<String> = (0..len)
+        .map(|i| {
+            let v = match rng.below(12) {
+                0..=3 => "M".to_string(),
+                4..=7 => "L".to_string(),
+                8 => rng.pick(&["p", "q", "z", "m"]).to_string(),
+                _ => format!("n{}", rng.range(0, 25) as i64 - 5),
+            };
+            format!("{}:{}", i + 1, v)
+        })
+        .collect();
+    format!("XV {} {}", if k % 2 == 0 { "r" } else { "a" }, join_nums(&evs))
+}
+
 /// every value sequence of length <= 3 over {1, -2, +inf, -inf, NaN, missing}
 fn exhaustive_xv(out: &mut Vec<String>) {
     let dom = ["n1", "i-2", "p", "q", "z", "m"];
@@ -1042,6 +1525,14 @@ fn exhaustive_records(k: usize, dom: u64, out: &mut Vec<String>) {
         let evs: Vec<String> = s.iter().map(|t| format!("{}:n{}", t, t)).collect();
         out.push(format!("WM T 2 100 100 {}", join_nums(&evs)));
         out.push(format!("WS T 2 100 {}", join_nums(&evs)));
+        // the stream operators: two keys alternating / by timestamp parity, tumbling and sliding, a binding cap
+        {
+            let k1: Vec<u64> = (0..s.len() as u64).map(|i| i % 2).collect();
+            let k2: Vec<u64> = s.iter().map(|t| 1 + t % 2).collect();
+            out.push(format!("KW T 2 100 {} {}", join_nums(&k1), join_nums(&evs)));
+            out.push(format!("KW S 2 100 {} {}", join_nums(&k2), join_nums(&evs)));
+            out.push(format!("KW T 3 1 {} {}", join_nums(&k2), join_nums(&evs)));
+        }
         // sliding manager (fixed windows, first fit), with and without a binding window limit; session twin
         out.push(format!("WM S 2 100 100 {}", join_nums(&evs)));
         out.push(format!("WM S 3 2 2 {}", join_nums(&evs)));
@@ -1117,14 +1608,59 @@ fn gen(rng: &mut Rng, n: usize, tier: &str) -> Vec<String> {
     for k in 0..(n / 10).max(72) {
         out.push(gen_xv(rng, k));
     }
+    // round 4 (drawn last): the stream operators, StdDev / arbitrary percentiles, manager and window statistics, field extraction
+    for k in 0..(n / 8).max(96) {
+        out.push(gen_kw(rng, k));
+    }
+    for _ in 0..(n / 16).max(48) {
+        out.push(gen_st(rng));
+    }
+    for _ in 0..(n / 16).max(48) {
+        out.push(gen_ms(rng));
+    }
+    for _ in 0..(n / 16).max(48) {
+        out.push(gen_ts_case(rng));
+    }
+    for _ in 0..24 {
+        out.push(gen_ev_case(rng));
+    }
+    for _ in 0..(n / 32).max(32) {
+        out.push(gen_an(rng).replacen("AN", "AS", 1));
+    }
+    for k in 0..(n / 40).max(40) {
+        out.push(gen_xv_order(rng, k));
+    }
+    for _ in 0..(n / 16).max(48) {
+        out.push(gen_sa(rng));
+    }
     out
 }
 
 // ---------------------------------------------------------------- shrink
 fn shrink(case: &str) -> Vec<String> {
     let t: Vec<&str> = case.split_whitespace().collect();
-    if t.len() < 5 && !(t.len() == 2 && t[0] == "AG") && !(t.len() == 3 && t[0] == "XV") {
+    if t.len() < 5 && !(t.len() == 2 && (t[0] == "AG" || t[0] == "EV")) && !(t.len() == 3 && (t[0] == "XV" || t[0] == "ST")) {
         return vec![];
+    }
+    if t[0] == "KW" && t.len() == 6 {
+        // keys and events shrink together
+        let keys = list(t[4]);
+        let evs = list(t[5]);
+        let head = t[..4].join(" ");
+        let mut out = Vec::new();
+        for i in 0..evs.len().min(keys.len()) {
+            let mut k2: Vec<&str> = keys.clone();
+            let mut e2: Vec<&str> = evs.clone();
+            k2.remove(i);
+            e2.remove(i);
+            out.push(format!("{} {} {}", head, join_nums(&k2), join_nums(&e2)));
+            if keys[i] != "1" {
+                let mut k3: Vec<&str> = keys.clone();
+                k3[i] = "1";
+                out.push(format!("{} {} {}", head, join_nums(&k3), t[5]));
+            }
+        }
+        return out;
     }
     let last = t.len() - 1;
     let items: Vec<String> = list(t[last]).iter().map(|s| s.to_string()).collect();
